@@ -248,6 +248,30 @@ func (s Schema) SingleFieldValues(t string, r *rand.Rand) []AM {
 				}
 				out = append(out, s.withField(t, i, af))
 			}
+			// packed payloads of exactly 127 and 128 bytes - where the length prefix grows by a byte - from elements of each
+			// encoded size that divides 128 (1-byte and 2-byte varints, 8-byte fixed; 4-byte fixed are the 31/32/33 above)
+			if fd.K != "message" && fd.K != "string" && fd.K != "bytes" {
+				bySize := map[int]AV{}
+				for _, e := range elems {
+					if sz := len(appendScalar(nil, fd.K, e)); sz > 0 {
+						if _, ok := bySize[sz]; !ok {
+							bySize[sz] = e
+						}
+					}
+				}
+				for _, plan := range [][2]int{{1, 127}, {1, 128}, {2, 64}, {8, 16}} {
+					e, ok := bySize[plan[0]]
+					if !ok {
+						continue
+					}
+					af := base
+					af.P = 1
+					for j := 0; j < plan[1]; j++ {
+						af.L = append(af.L, e)
+					}
+					out = append(out, s.withField(t, i, af))
+				}
+			}
 		default:
 			if fd.K == "message" {
 				for _, sub := range []AM{s.Empty(fd.T), s.leafFor(fd.T, r, 1)} {
@@ -386,6 +410,7 @@ type EncOpts struct {
 	MapShapes   bool       // map entries value-first, or with zero key / zero value omitted
 	Unknown     bool       // interleave unknown fields
 	LongKeys    bool       // encode some keys in one byte more than necessary
+	Sandwich    bool       // an unknown field before every field and one at the end, whatever R (which may be nil)
 	Split       *bool      // set when a singular message field was actually split over two occurrences
 }
 
@@ -617,14 +642,18 @@ func (s Schema) Encode(t string, m AM, o EncOpts) []byte {
 		r.Shuffle(len(chunks), func(i, j int) { chunks[i], chunks[j] = chunks[j], chunks[i] })
 	}
 	var out []byte
+	sr := r
+	if o.Sandwich && sr == nil {
+		sr = rand.New(rand.NewSource(int64(len(chunks))*7919 + 17))
+	}
 	for _, c := range chunks {
-		if r != nil && o.Unknown && r.Intn(3) == 0 {
-			out = append(out, s.unknownField(t, r)...)
+		if o.Sandwich || (r != nil && o.Unknown && r.Intn(3) == 0) {
+			out = append(out, s.unknownField(t, sr)...)
 		}
 		out = append(out, c...)
 	}
-	if r != nil && o.Unknown && r.Intn(2) == 0 {
-		out = append(out, s.unknownField(t, r)...)
+	if o.Sandwich || (r != nil && o.Unknown && r.Intn(2) == 0) {
+		out = append(out, s.unknownField(t, sr)...)
 	}
 	out = append(out, tr.ToBytes(m.U)...)
 	return out
